@@ -54,6 +54,21 @@ def ReadyK (R0 : Kind → Nat → Prop) : List Block → List Block → Prop
 def unmergedAt (bs : Blocks) (s0 : DocState) (e : Block) : Bool :=
   !isMerged bs (headsOf s0 e.kind) e.id e.height
 
+/-- the situation in which `docStep` applies a block: stored, not merged into the head set of its kind, its parents
+    merged, its links foreign to that head set -/
+structure GoodStep (bs : Blocks) (s : DocState) (e : Block) : Prop where
+  stored : bs.get? e.id = some e
+  notCol : e.kind ≠ .col
+  unmerged : ¬ Reach bs (headsOf s e.kind) e.id
+  parents : ∀ p ∈ e.parents, Reach bs (headsOf s e.kind) p
+  notSelf : e.id ∉ e.parents ++ e.links
+  links : ∀ l ∈ e.links, l ∉ headsOf s e.kind
+  nodup : (headsOf s e.kind).Nodup
+
+/-- the state after applying `e` -/
+def applied (s : DocState) (e : Block) : DocState :=
+  setHeadsOf { s with vals := applyDelta s.vals e } e.kind (updateHeads (fun _ => true) (headsOf s e.kind) e)
+
 /-- the blocks actually applied: the first occurrence of every block of the sequence that was not merged before
     (equal field blocks are one block — content addressing — and may be linked by several composites) -/
 def addFirst (bs : Blocks) (s0 : DocState) (acc : List Block) (e : Block) : List Block :=
@@ -140,8 +155,10 @@ theorem foldl_addFirst_nodup (bs : Blocks) (s0 : DocState) : ∀ (D acc : List B
       exact this (by simpa using hxe)
     · exact h
 
-theorem fold_docStep (bs : Blocks) (wf : WellFormed bs) (s0 : DocState) :
+theorem fold_docStep (bs : Blocks) (wf : WellFormed bs) (s0 : DocState) (I : DocState → Prop)
+    (hI : ∀ s e, GoodStep bs s e → I s → I (applied s e)) :
     ∀ (rest D : List Block) (s : DocState),
+      I s →
       KInv bs s →
       (∀ k t, Reach bs (headsOf s k) t ↔
         (Reach bs (headsOf s0 k) t ∨ ∃ b ∈ D, b.id = t ∧ b.kind = k)) →
@@ -149,32 +166,32 @@ theorem fold_docStep (bs : Blocks) (wf : WellFormed bs) (s0 : DocState) :
       (∀ e ∈ D ++ rest, ElemOK bs e) →
       ReadyK (fun k t => Reach bs (headsOf s0 k) t) D rest →
       let s' := rest.foldl (docStep bs (fun _ => true)) s
-      KInv bs s' ∧
+      I s' ∧ KInv bs s' ∧
       (∀ k t, Reach bs (headsOf s' k) t ↔
         (Reach bs (headsOf s0 k) t ∨ ∃ b ∈ D ++ rest, b.id = t ∧ b.kind = k)) ∧
       s'.vals = (appliedSeq bs s0 (D ++ rest)).foldl applyDelta s0.vals := by
   intro rest
   induction rest with
   | nil =>
-    intro D s hk hr hv _ _
+    intro D s hi hk hr hv _ _
     simp only [List.foldl_nil, List.append_nil]
-    exact ⟨hk, hr, hv⟩
+    exact ⟨hi, hk, hr, hv⟩
   | cons e tl ih =>
-    intro D s hk hr hv hok hready
+    intro D s hi hk hr hv hok hready
     have heok := hok e (List.mem_append_right _ List.mem_cons_self)
     have hget := heok.stored
     -- the continuation, common to both cases
-    have hcont : ∀ s1 : DocState, KInv bs s1 →
+    have hcont : ∀ s1 : DocState, I s1 → KInv bs s1 →
         (∀ k t, Reach bs (headsOf s1 k) t ↔
           (Reach bs (headsOf s0 k) t ∨ ∃ b ∈ D ++ [e], b.id = t ∧ b.kind = k)) →
         s1.vals = (appliedSeq bs s0 (D ++ [e])).foldl applyDelta s0.vals →
         let s' := tl.foldl (docStep bs (fun _ => true)) s1
-        KInv bs s' ∧
+        I s' ∧ KInv bs s' ∧
         (∀ k t, Reach bs (headsOf s' k) t ↔
           (Reach bs (headsOf s0 k) t ∨ ∃ b ∈ D ++ e :: tl, b.id = t ∧ b.kind = k)) ∧
         s'.vals = (appliedSeq bs s0 (D ++ e :: tl)).foldl applyDelta s0.vals := by
-      intro s1 h1 h2 h3
-      have := ih (D ++ [e]) s1 h1 h2 h3 (by simpa using hok) hready.2
+      intro s1 h0 h1 h2 h3
+      have := ih (D ++ [e]) s1 h0 h1 h2 h3 (by simpa using hok) hready.2
       simpa using this
     simp only [List.foldl_cons]
     by_cases hr0 : Reach bs (headsOf s0 e.kind) e.id
@@ -187,7 +204,7 @@ theorem fold_docStep (bs : Blocks) (wf : WellFormed bs) (s0 : DocState) :
         rw [isMerged_complete bs wf _ e.id e hget hr0]; rfl
       have hstep : docStep bs (fun _ => true) s e = s := by unfold docStep; simp [hm]
       rw [hstep]
-      apply hcont s hk
+      apply hcont s hi hk
       · intro k t
         rw [hr k t]
         constructor
@@ -216,7 +233,7 @@ theorem fold_docStep (bs : Blocks) (wf : WellFormed bs) (s0 : DocState) :
           isMerged_complete bs wf _ b.id b hget hreach
         have hstep : docStep bs (fun _ => true) s b = s := by unfold docStep; simp [hm]
         rw [hstep]
-        apply hcont s hk
+        apply hcont s hi hk
         · intro k t
           rw [hr k t]
           constructor
@@ -289,6 +306,7 @@ theorem fold_docStep (bs : Blocks) (wf : WellFormed bs) (s0 : DocState) :
         · rfl
         · exact headsOf_vals _ _ _
       apply hcont
+      · exact hI s e ⟨hget, heok.notCol, hnreach, hpar, hself, hlinks, hkk.1⟩ hi
       · intro x hx
         rw [hheads x.kind]
         by_cases hke : x.kind = e.kind
@@ -688,10 +706,11 @@ theorem path_doc (bs : Blocks) (swf : StoreWF2 bs) {y t n : Nat} (h : Path bs y 
     exact ⟨r1, r2.trans (swf.sameDoc y _ hg hk p hp pb hpb)⟩
 
 /-- **One delivered commit, end to end, whole document state.** -/
-theorem mergeDoc_full (cx : Ctx) (swf : StoreWF3 cx.blocks)
+theorem mergeDoc_full_inv (cx : Ctx) (swf : StoreWF3 cx.blocks)
     (hknown : ∀ l, (cx.blocks.get? l).isSome = true → cx.known l = true)
+    (I : DocState → Prop) (hI : ∀ s e, GoodStep cx.blocks s e → I s → I (applied s e))
     (r : Replica) (c : Block) (hc : cx.blocks.get? c.id = some c) (hck : c.kind = .comp)
-    (hk : KInv cx.blocks (r.doc c.doc)) (hli : LinkInv cx.blocks (r.doc c.doc)) :
+    (hk : KInv cx.blocks (r.doc c.doc)) (hli : LinkInv cx.blocks (r.doc c.doc)) (hi0 : I (r.doc c.doc)) :
     WalkFacts cx.blocks (r.doc c.doc).heads c.id
       (sortByHeight (loadComposites cx.blocks (r.doc c.doc).heads (cx.blocks.length + 1) c.id ([], [])).1) ∧
     (∀ e ∈ flatSeq cx.blocks
@@ -706,7 +725,8 @@ theorem mergeDoc_full (cx : Ctx) (swf : StoreWF3 cx.blocks)
     ((mergeDoc cx r c).doc c.doc).vals =
       (appliedSeq cx.blocks (r.doc c.doc) (flatSeq cx.blocks
         (sortByHeight (loadComposites cx.blocks (r.doc c.doc).heads (cx.blocks.length + 1) c.id ([], [])).1))).foldl
-          applyDelta (r.doc c.doc).vals := by
+          applyDelta (r.doc c.doc).vals ∧
+    I ((mergeDoc cx r c).doc c.doc) := by
   generalize hbs : cx.blocks = bs at *
   generalize hs0 : r.doc c.doc = s0 at *
   generalize hL : sortByHeight (loadComposites bs s0.heads (bs.length + 1) c.id ([], [])).1 = L
@@ -790,10 +810,32 @@ theorem mergeDoc_full (cx : Ctx) (swf : StoreWF3 cx.blocks)
         · have := path_height bs wf hpath b ab (hLst b hb) hga
           omega
         · exact List.mem_map.mpr ⟨pb, mem_childBlocks.mpr ⟨p, hpin, hpb⟩, Blocks.get?_id hpb⟩
-  have := fold_docStep bs wf s0 (flatSeq bs L) [] s0 hk (by intro k t; simp) rfl
+  have := fold_docStep bs wf s0 I hI (flatSeq bs L) [] s0 hi0 hk (by intro k t; simp) rfl
     (by simpa using hok) hready
   simp only [List.nil_append] at this
-  exact ⟨wfacts, hok, this.1, this.2.1, this.2.2⟩
+  exact ⟨wfacts, hok, this.2.1, this.2.2.1, this.2.2.2, this.1⟩
+
+theorem mergeDoc_full (cx : Ctx) (swf : StoreWF3 cx.blocks)
+    (hknown : ∀ l, (cx.blocks.get? l).isSome = true → cx.known l = true)
+    (r : Replica) (c : Block) (hc : cx.blocks.get? c.id = some c) (hck : c.kind = .comp)
+    (hk : KInv cx.blocks (r.doc c.doc)) (hli : LinkInv cx.blocks (r.doc c.doc)) :
+    WalkFacts cx.blocks (r.doc c.doc).heads c.id
+      (sortByHeight (loadComposites cx.blocks (r.doc c.doc).heads (cx.blocks.length + 1) c.id ([], [])).1) ∧
+    (∀ e ∈ flatSeq cx.blocks
+      (sortByHeight (loadComposites cx.blocks (r.doc c.doc).heads (cx.blocks.length + 1) c.id ([], [])).1),
+      ElemOK cx.blocks e) ∧
+    KInv cx.blocks ((mergeDoc cx r c).doc c.doc) ∧
+    (∀ k t, Reach cx.blocks (headsOf ((mergeDoc cx r c).doc c.doc) k) t ↔
+      (Reach cx.blocks (headsOf (r.doc c.doc) k) t ∨
+        ∃ b ∈ flatSeq cx.blocks
+          (sortByHeight (loadComposites cx.blocks (r.doc c.doc).heads (cx.blocks.length + 1) c.id ([], [])).1),
+          b.id = t ∧ b.kind = k)) ∧
+    ((mergeDoc cx r c).doc c.doc).vals =
+      (appliedSeq cx.blocks (r.doc c.doc) (flatSeq cx.blocks
+        (sortByHeight (loadComposites cx.blocks (r.doc c.doc).heads (cx.blocks.length + 1) c.id ([], [])).1))).foldl
+          applyDelta (r.doc c.doc).vals := by
+  have := mergeDoc_full_inv cx swf hknown (fun _ => True) (fun _ _ _ _ => trivial) r c hc hck hk hli trivial
+  exact ⟨this.1, this.2.1, this.2.2.1, this.2.2.2.1, this.2.2.2.2.1⟩
 
 end Defra.Crdt
 
